@@ -268,6 +268,21 @@ func init() {
 }
 
 func init() {
+	dumpers["memorows"] = func(p *Prog, m *Model) {
+		for _, fn := range allModFuncs(p) {
+			if fn.Synthetic != "" {
+				continue
+			}
+			seen := map[string]bool{}
+			for _, s := range memoSitesOf(fn) {
+				if seen[s.Field] {
+					continue
+				}
+				seen[s.Field] = true
+				fmt.Printf("%s\t%s\tPROPS\tREASON\t# %s %s\n", fnDisplay(fn), s.Field, pkgOfFunc(fn), p.ipos(s.In))
+			}
+		}
+	}
 	dumpers["siderows"] = func(p *Prog, m *Model) {
 		// PKG=nsx,panos -> TSV rows for tables/sides_audit.tsv
 		pk := map[string]bool{}
@@ -353,6 +368,23 @@ func init() {
 					fmt.Printf("%s\t%s\t%s\tPROPS\tREASON\t# %s\n", fnDisplay(fn), gs.Name, gs.Sig, p.ipos(gs.In))
 				}
 			}
+		}
+	}
+}
+
+func init() {
+	dumpers["structfields"] = func(p *Prog, m *Model) {
+		fmt.Println("# struct type\tfield index\tname\ttype — regenerate with bin/nscheck -dump structfields after every audited change of /repo (bin/refresh-evidence does)")
+		for _, l := range structFieldRows(p) {
+			fmt.Println(l)
+		}
+	}
+}
+
+func init() {
+	dumpers["fieldalias"] = func(p *Prog, m *Model) {
+		for k, v := range fieldAlias {
+			fmt.Println(k, "->", v)
 		}
 	}
 }
